@@ -36,9 +36,12 @@ def build(ctx, F=None, adt=TS):
     for p in paths:
         if p.ret[0] == "agg" and p.ret[3] == "NotStarted":
             for (t, v, s) in p.conds:
+                # idioms of the not-started test:  time - delay < 0   |   time < delay
                 if t[0] == "bin" and t[1] == "Lt" and t[2][0] == "bin" and t[2][1] == "Sub" and t[2][2] == TIME \
                         and t[2][3][0] == "field" and t[2][3][1] == SELF:
                     delay = t[2][3][2]
+                if t[0] == "bin" and t[1] == "Lt" and t[2] == TIME and t[3][0] == "field" and t[3][1] == SELF:
+                    delay = t[3][2]
     if delay not in f32s:
         raise AnchorLost("cannot identify the delay field of TimeScale from the not-started test")
     roles = {"delay": delay, "duration": [f for f in f32s if f != delay][0], "reverse": bools[0], "repeat": reps[0]}
@@ -69,6 +72,9 @@ def build(ctx, F=None, adt=TS):
         env.set(S, Iv(-intervals.INF, intervals.INF, 1))
         for (t, v, s) in p.conds:
             if isinstance(v, int):
+                if t == ("bin", "Lt", TIME, fld(roles["delay"])) and v == 0:
+                    # time >= delay  =>  time - delay >= 0 (float subtraction is exact in sign)
+                    env.set(S, Iv(0, intervals.INF, 1))
                 refine(env, t, v)
         r.env = env
         r.label = "%s repeat=%s reverse=%s [%s]" % (r.kind, r.repeat, r.reverse,
